@@ -101,6 +101,14 @@ let init () =
     | [x; y; b; n; ul; cw; ch; sp; bl; uo; uh] ->
         v (draw_string_plain_ok (pt x y) (bo b ch bl) (z_in cw) (z_in sp) (z_in n))
     | _ -> "BAD-ARGS");
+  register "ok_linear_equation" (function
+    | [a; b; c; d; x; y] -> let l = ln a b c d in v (from_line_ok l && le_point_distance_ok l (pt x y))
+    | _ -> "BAD-ARGS");
+  register "ok_line_intersection" (function
+    | [a; b; c; d; e; f; g; h] ->
+        let l1 = ln a b c d and l2 = ln e f g h in
+        v (from_lines_ok l1 l2 && ip_intersection_ok l1 l2 && nearly_colinear_ok l1 l2)
+    | _ -> "BAD-ARGS");
   register "ok_line_height" (function
     | [k; x; base] -> v (line_height_ok (k = "1") (z_in x) (z_in base))
     | _ -> "BAD-ARGS");
